@@ -1,22 +1,198 @@
-(** C14: number-field element arithmetic and multiplication tables (first version). *)
+(** * C14: number-field element arithmetic and multiplication tables.
+
+    Specification language: MathComp, as in C09.  A coefficient list [s] denotes
+    [Poly s : {poly Qc}]; [canonQ] / [canonZ] say "no trailing zero"; the minimal polynomial
+    [f : list Z] denotes [Fq f = Poly (map qz f)]; [elem n a] says that [a] is a canonical
+    representative of degree < n ([canonQ a && (size a <= n)]).  [%%] is MathComp's
+    polynomial remainder over the field [Qc] ([QcRing]: the field operations are the stdlib
+    [Qcplus], [Qcmult], ... by conversion).  All theorems are about the functions the
+    correspondence check runs ([alg_mul], [alg_add], [alg_sub], [alg_pow]). *)
 From RNT.Model Require Import Base Poly Algebraic MultTable Order.
-From RNT.Refine Require Import AlgBasic.
 From Coq Require Import QArith Qcanon.
-Open Scope Z_scope.
+From mathcomp Require Import all_ssreflect ssralg poly polydiv.
+From mathcomp Require Import ssrZ.
+From RNT.Refine Require Import QcRing PolyRefine PolyZ PolyQ AlgBasic AlgMul AlgQuot MultTableOps TableAgrees.
+Set Implicit Arguments.
+Unset Strict Implicit.
+Import GRing.Theory.
+Local Open Scope ring_scope.
 
-(** [P] *)
-Theorem alg_mul_zero_l : forall f b, alg_mul f [] b = Done [].
+(** ** Quotient ring Q[x]/(f), f of degree n >= 1, monic or not, reducible or not *)
+
+(** [P] mul_with_mod_spec: the product returns, is canonical of degree < n, and is the
+    remainder of the polynomial product modulo f. *)
+Theorem mul_with_mod_spec (f : seq Z) (n : nat) :
+  canonZ f -> size f = n.+1 -> forall a b : seq Qc, canonQ a -> canonQ b -> (size a <= n)%N -> (size b <= n)%N ->
+  exists r, [/\ alg_mul f a b = Done r, canonQ r, (size r <= n)%N
+              & Poly r = (Poly a * Poly b) %% Fq f].
+Proof. exact (@mul_with_mod_main f n). Qed.
+
+(** [P] the same congruence with the model's own list operations:
+    a * b = q * f + r over Q for some q *)
+Theorem mul_with_mod_congruence (f : seq Z) (n : nat) (a b : seq Qc) :
+  canonZ f -> size f = n.+1 -> elem n a -> elem n b ->
+  exists r q, [/\ alg_mul f a b = Done r, elem n r &
+    pmul opsQc a b = padd opsQc (pmul opsQc q (List.map qz f)) r].
+Proof. exact (@alg_mul_congruence f n a b). Qed.
+
+Example mul_with_mod_ex :
+  let f := [:: 1; 1; 0; 2]%Z in
+  let a := [:: Qcdiv (qz 1) (qz 2); qz 3; qz (-1)] in let b := [:: qz 0; qz 1; qz 1] in
+  [/\ canonZ f, elem 3 a, elem 3 b &
+      Base.omap (List.map this) (alg_mul f a b) = Done [:: (-1 # 1)%Q; (0 # 1)%Q; (4 # 1)%Q]].
+Proof. by split; vm_compute. Qed.
+
+(** [P] sums and differences *)
+Theorem alg_add_spec (n : nat) (a b : seq Qc) : elem n a -> elem n b ->
+  elem n (alg_add a b) /\ Poly (alg_add a b) = Poly a + Poly b.
+Proof. exact (@alg_add_ok n a b). Qed.
+Theorem alg_sub_spec (n : nat) (a b : seq Qc) : elem n a -> elem n b ->
+  elem n (alg_sub a b) /\ Poly (alg_sub a b) = Poly a - Poly b.
+Proof. exact (@alg_sub_ok n a b). Qed.
+
+(** [P] ring laws, as equalities of the stored representatives *)
+Theorem alg_mul_comm (f : seq Z) (n : nat) :
+  canonZ f -> size f = n.+1 -> forall a b : seq Qc, elem n a -> elem n b ->
+  exists2 r, alg_mul f a b = Done r & alg_mul f b a = Done r.
+Proof. exact (@AlgQuot.alg_mul_comm f n). Qed.
+
+Theorem alg_mul_assoc (f : seq Z) (n : nat) :
+  canonZ f -> size f = n.+1 -> forall a b c : seq Qc, elem n a -> elem n b -> elem n c ->
+  exists ab bc r, [/\ alg_mul f a b = Done ab, alg_mul f ab c = Done r,
+                      alg_mul f b c = Done bc & alg_mul f a bc = Done r].
+Proof. exact (@AlgQuot.alg_mul_assoc f n). Qed.
+
+Theorem alg_mul_distr (f : seq Z) (n : nat) :
+  canonZ f -> size f = n.+1 -> forall a b c : seq Qc, elem n a -> elem n b -> elem n c ->
+  exists ab ac r, [/\ alg_mul f a b = Done ab, alg_mul f a c = Done ac,
+                      alg_mul f a (alg_add b c) = Done r & alg_add ab ac = r].
+Proof. exact (@AlgQuot.alg_mul_distr f n). Qed.
+
+Theorem alg_mul_one (f : seq Z) (n : nat) :
+  canonZ f -> size f = n.+1 -> forall a : seq Qc, (0 < n)%N -> elem n a -> alg_mul f (alg_from_int 1) a = Done a.
+Proof. exact (@AlgQuot.alg_mul_1l f n). Qed.
+
+(** [P] binary exponentiation (both exponent types run this loop): the supplied fuel
+    suffices and the result is the representative of a^e *)
+Theorem alg_pow_spec (f : seq Z) (n : nat) :
+  canonZ f -> size f = n.+1 -> forall (a : seq Qc) (e : Z), (0 < n)%N -> elem n a -> (0 <= e)%Z ->
+  exists2 r, alg_pow f a e = Done r & elem n r /\ Poly r = (Poly a ^+ Z.to_nat e) %% Fq f.
+Proof. exact (@alg_pow_ok f n). Qed.
+
+(** [P] a^(s+t) = a^s * a^t *)
+Theorem alg_pow_add (f : seq Z) (n : nat) :
+  canonZ f -> size f = n.+1 -> forall (a : seq Qc) (s t : Z), (0 < n)%N -> elem n a -> (0 <= s)%Z -> (0 <= t)%Z ->
+  exists ps pt r, [/\ alg_pow f a s = Done ps, alg_pow f a t = Done pt,
+                      alg_pow f a (s + t) = Done r & alg_mul f ps pt = Done r].
+Proof. exact (@AlgQuot.alg_pow_add f n). Qed.
+
+Example alg_pow_ex :
+  let f := [:: 1; 1; 0; 2]%Z in let a := [:: Qcdiv (qz 1) (qz 2); qz 3; qz (-1)] in
+  [/\ canonZ f, elem 3 a, (0 < 3)%N &
+      Base.omap (List.map this) (alg_pow f a 5)
+      = Done [:: (-3471 # 32)%Q; (-2825 # 16)%Q; (-309 # 16)%Q]].
+Proof. by split; vm_compute. Qed.
+
+(** [P] the zero element absorbs ([mul_with_mod] returns before looking at the modulus) *)
+Theorem alg_mul_zero_l : forall f b, alg_mul f [::] b = Done [::].
 Proof. exact AlgBasic.alg_mul_zero_l. Qed.
-
-Theorem alg_mul_zero_r : forall f a, alg_mul f a [] = Done [].
+Theorem alg_mul_zero_r : forall f a, alg_mul f a [::] = Done [::].
 Proof. exact AlgBasic.alg_mul_zero_r. Qed.
+
+(** ** Multiplication tables
+
+    [cube n t]: the table is n x n x n.  [vadd], [vscale]: pointwise sum and scalar multiple of
+    integer vectors.  [of_coords n b x = sum_(k < n) x_k *: Poly (row k of b)]: the element with
+    coordinates [x] in the basis [b] (rows = basis vectors in the power basis of theta). *)
+
+(** [P] mult_table_mul_bilinear: [mul] returns on well-shaped input and is linear in each argument
+    (both build profiles: the debug assertions of [mul] hold on such input) *)
+Theorem mult_table_mul_linear_l (m : mode) (n : nat) (t : table) (a a' b : seq Z) (c : Z) :
+  cube n t -> size a = n -> size a' = n -> size b = n ->
+  exists r r', [/\ mt_mul m t a b = Done r, mt_mul m t a' b = Done r' &
+                   mt_mul m t (vadd (vscale c a) a') b = Done (vadd (vscale c r) r')].
+Proof. exact (@mt_mul_linear_l m n t a a' b c). Qed.
+Theorem mult_table_mul_linear_r (m : mode) (n : nat) (t : table) (a b b' : seq Z) (c : Z) :
+  cube n t -> size a = n -> size b = n -> size b' = n ->
+  exists r r', [/\ mt_mul m t a b = Done r, mt_mul m t a b' = Done r' &
+                   mt_mul m t a (vadd (vscale c b) b') = Done (vadd (vscale c r) r')].
+Proof. exact (@mt_mul_linear_r m n t a b b' c). Qed.
+
+(** [P] trace_additive (and homogeneous) *)
+Theorem trace_additive (n : nat) (t : table) (a a' : seq Z) (c : Z) :
+  cube n t -> size a = n -> size a' = n ->
+  exists r r', [/\ mt_trace t a = Done r, mt_trace t a' = Done r' &
+                   mt_trace t (vadd (vscale c a) a') = Done (c * r + r')].
+Proof. exact (@mt_trace_linear n t a a' c). Qed.
+
+(** [P] closed forms: the defining sums *)
+Theorem mult_table_mul_sum (m : mode) (n : nat) (t : table) (a b : seq Z) :
+  cube n t -> size a = n -> size b = n ->
+  mt_mul m t a b = Done (mkseq (fun k =>
+     \sum_(i <- iota 0 n) \sum_(j <- iota 0 n) nth 0 a i * nth 0 b j * T3 t i j k) n).
+Proof. exact (@mt_mul_closed m n t a b). Qed.
+Theorem mult_table_trace_sum (n : nat) (t : table) (a : seq Z) :
+  cube n t -> size a = n ->
+  mt_trace t a = Done (\sum_(i <- iota 0 n) \sum_(j <- iota 0 n) nth 0 a i * T3 t j i j).
+Proof. exact (@mt_trace_closed n t a). Qed.
+
+(** [P] a table returned by [get_mult_table] for an n x n basis is n x n x n (and integral by
+    construction: the integrality assertions of the code passed) *)
+Theorem get_mult_table_shape (f : seq Z) (n : nat) :
+  canonZ f -> size f = n.+1 -> forall b : seq (seq Qc), size b = n -> (forall i, (i < n)%N -> size (nth [::] b i) = n) ->
+  forall t, get_mult_table b f = Done t -> cube n t.
+Proof. exact (@table_cube f n). Qed.
+
+(** [P] table_mul_agrees: if [get_mult_table] returned (so: the basis is invertible, products of
+    basis elements have integer coordinates), [mul] on integer coordinate vectors returns the
+    coordinates of the product of the two elements in Q[x]/(f) *)
+Theorem table_mul_agrees (f : seq Z) (n : nat) :
+  canonZ f -> size f = n.+1 -> forall b : seq (seq Qc), size b = n -> (forall i, (i < n)%N -> size (nth [::] b i) = n) ->
+  forall t, get_mult_table b f = Done t ->
+  forall (m : mode) (x y : seq Z), size x = n -> size y = n ->
+  exists2 z, mt_mul m t x y = Done z &
+    size z = n /\
+    of_coords n b (map qz z) = (of_coords n b (map qz x) * of_coords n b (map qz y)) %% Fq f.
+Proof. exact (@TableAgrees.table_mul_agrees f n). Qed.
+
+(** [P] [to_z_basis_int] returns the integer coordinates of the element *)
+Theorem to_z_basis_int_spec (n : nat) (b : seq (seq Qc)) :
+  size b = n -> (forall i, (i < n)%N -> size (nth [::] b i) = n) ->
+  forall (a : seq Qc) (r : seq Z), canonQ a -> (size a <= n)%N ->
+  to_z_basis_int b a = Done r -> size r = n /\ of_coords n b (map qz r) = Poly a.
+Proof. exact (@TableAgrees.to_z_basis_int_spec n b). Qed.
+
+Example table_mul_agrees_ex :
+  let f := [:: 5; 0; 1]%Z in
+  let b := [:: [:: qz 1; qz 0]; [:: qz 0; qz 1]] in
+  let t := [:: [:: [:: 1; 0]; [:: 0; 1]]; [:: [:: 0; 1]; [:: -5; 0]]]%Z in
+  [/\ canonZ f, get_mult_table b f = Done t, cube 2 t &
+      mt_mul Checked t [:: 1; 1]%Z [:: 1; -1]%Z = Done [:: 6; 0]%Z].
+Proof. by split; vm_compute. Qed.
+
 
 (** the table of Z[sqrt(-5)] from the model, and (1 + sqrt(-5))^{-1} = (1 - sqrt(-5)) / 6 *)
 Example mult_table_sqrt_m5 :
-  (do b <- singly_gen [5; 0; 1] (alg_new [5; 0; 1]); get_mult_table b [5; 0; 1])
-  = Done [[[1; 0]; [0; 1]]; [[0; 1]; [-5; 0]]].
-Proof. vm_compute. reflexivity. Qed.
+  (do b <- singly_gen [:: 5; 0; 1]%Z (alg_new [:: 5; 0; 1]%Z); get_mult_table b [:: 5; 0; 1]%Z)
+  = Done [:: [:: [:: 1; 0]; [:: 0; 1]]; [:: [:: 0; 1]; [:: -5; 0]]]%Z.
+Proof. by vm_compute. Qed.
 
 Example inv_sqrt_m5 :
-  mt_inv [[[1; 0]; [0; 1]]; [[0; 1]; [-5; 0]]] [1; 1] = Done ([1; -1], 6).
-Proof. vm_compute. reflexivity. Qed.
+  mt_inv [:: [:: [:: 1; 0]; [:: 0; 1]]; [:: [:: 0; 1]; [:: -5; 0]]]%Z [:: 1; 1]%Z = Done ([:: 1; -1]%Z, 6%Z).
+Proof. by vm_compute. Qed.
+
+(** ** norm *)
+From mathcomp Require Import matrix.
+From RNT.Refine Require Import MultTableNorm.
+
+(** [P] norm_det: on an n x n x n table, [norm a] returns the determinant of the integer matrix
+    [sum_i a_i T_i] (row j = coordinates of a * w_j: the multiplication matrix); the rational
+    determinant computed by the code is an integer and the final [to_integer] does not truncate *)
+Theorem norm_det (n : nat) (t : table) (a : seq Z) : cube n t -> size a = n ->
+  mt_norm t a = Done (\det (\matrix_(j < n, k < n) \sum_(i <- iota 0 n) nth 0 a i * T3 t i j k)).
+Proof. exact (@mt_norm_det n t a). Qed.
+
+Example norm_det_ex :
+  cube 2 [:: [:: [:: 1; 0]; [:: 0; 1]]; [:: [:: 0; 1]; [:: -5; 0]]]%Z /\
+  mt_norm [:: [:: [:: 1; 0]; [:: 0; 1]]; [:: [:: 0; 1]; [:: -5; 0]]]%Z [:: 1; 1]%Z = Done 6%Z.
+Proof. by split; vm_compute. Qed.
